@@ -709,36 +709,37 @@ def rule_intrinsic_modifiers(chk):
     ip = I.Interp(f, max_depth=10, extern=ext)
     ip.max_loop = 512
     mod = I.Enum("Module", None, {"type_registry": I.Opaque("types")})
-    # the let that selects the table: a match over the object type whose arms are table constants
-    sel = None
-    for st in F.walk(gm["thir"]):
-        if isinstance(st, dict) and st.get("k") in ("Let", "LetStmt") and isinstance(st.get("init"), dict):
-            ini = F.strip(st["init"])
-            if ini.get("k") == "Match" and "ObjectType" in (F.strip(ini["scrut"]).get("ty") or ""):
-                sel = ini
-                break
-    if not chk.anchor("C03.anchor/get_methods-table", sel, "table selection of get_methods", where(gm)):
+    # the tables: every constant slice of IntrinsicDefinition in the module; a method list is matched to its table by
+    # the sequence of (name, intrinsic) pairs, however get_methods selects it
+    tables = []
+    for b_ in f.crates.get("rssl_ir", {}).get("bodies", []):
+        if b_.get("kind") in ("Const", "Static") and "intrinsic_data" in b_["path"] and "IntrinsicDefinition" in (b_.get("ty") or b_.get("ret") or "") + str(b_.get("thir", {}).get("ty", "")):
+            try:
+                t_ = ip.ev(b_["thir"], {}, 0)
+            except I.Unknown:
+                continue
+            if isinstance(t_, list) and t_ and all(isinstance(d, I.Enum) and "param_types" in d.fields for d in t_):
+                tables.append((short(b_["path"]), t_))
+    if not chk.anchor("C03.anchor/intrinsic-tables", tables, "constant tables of IntrinsicDefinition", where(gm)):
         return
-    obj_param = gm["params"][1]["pat"]["id"] if len(gm.get("params", [])) > 1 and gm["params"][1].get("pat", {}).get("k") == "Bind" else None
+    sig_of = lambda d: (d.fields.get("function_name"), repr(d.fields.get("intrinsic")))
     n_methods = n_out = 0
     bad = None
     for oname in u.objects:
         ot = u.base[u.names[oname]].fields["0"]
         try:
-            env = {obj_param: ot} if obj_param is not None else {}
-            try:
-                table = ip.ev(sel, env, 0)
-            except I.ReturnEx:
-                continue            # no built-in methods for this object
             methods = ip.apply(gm, [mod, ot])
         except I.Unknown as e:
             chk.unreadable("C03.out/intrinsic-methods/readable", "get_methods(%s)" % oname, e, where(gm))
             return
-        if not isinstance(table, list) or not isinstance(methods, list):
+        if not isinstance(methods, list) or not methods:
             continue
-        if len(table) != len(methods):
-            bad = bad or "%s: the table has %d entries, get_methods returns %d" % (oname, len(table), len(methods))
+        key = [(m.fields.get("name"), repr(m.fields.get("intrinsic"))) for m in methods]
+        match = [t for n_, t in tables if [sig_of(d) for d in t] == key]
+        if not match:
+            bad = bad or "%s: the %d methods returned by get_methods are not the entries of any one intrinsic table, in order" % (oname, len(methods))
             continue
+        table = match[0]
         for d, m in zip(table, methods):
             n_methods += 1
             want = [pd.fields["1"].variant for pd in d.fields["param_types"]]
@@ -767,6 +768,15 @@ def rule_intrinsic_modifiers(chk):
             from_entry = im.get("k") == "Field" and str(im.get("name")) == "1" and mv is not None
             ty_vars = {v["id"] for v in F.exprs(flds["type_id"], "Var")}
             ok = from_entry and mv["id"] in ty_vars
+            if not ok and im.get("k") in ("Var", "Deref") and mv is not None:
+                # `ParamDef(ty, modifier)` destructured: both names are bound by one pattern, the modifier at position 1
+                roots = [b["thir"]] + [pp_["pat"] for pp_ in b.get("params", []) if isinstance(pp_.get("pat"), dict)]
+                for pat in [x for r_ in roots for x in F.walk(r_) if isinstance(x, dict) and x.get("k") in ("Variant", "Leaf", "TupleStruct") and "subs" in x]:
+                    subs = {str(sp.get("f")): sp.get("p") for sp in pat.get("subs", [])}
+                    b1 = [bd for bd in F.walk(subs.get("1") or {}) if isinstance(bd, dict) and bd.get("k") == "Bind"]
+                    b0 = [bd for bd in F.walk(subs.get("0") or {}) if isinstance(bd, dict) and bd.get("k") == "Bind"]
+                    if any(bd.get("id") == mv["id"] for bd in b1) and any(bd.get("id") in ty_vars for bd in b0):
+                        ok = True
             chk.ob("C03.out/intrinsic-entry/%s#%d" % (short(b.get("parent") or b["path"]), n_sites), ok,
                    "the parameter's modifier and type are read from the same table entry" if ok else
                    "a signature parameter is built with a modifier that is not the `.1` of the table entry its type comes from", where(b, a.get("ln")))
@@ -802,7 +812,7 @@ def run(chk):
         rule_incdec(chk)
     rule_conv_table(chk)
     rule_out(chk)
-    rule_through(chk)
+    rule_through(chk, binop_evaluated=rb)
     rule_total(chk)
     rule_swizzle_value_type(chk)
     rule_lvalue_destination(chk)
@@ -985,7 +995,9 @@ def rule_out(chk):
                "find_overload_casts records casts without a successful ImplicitConversion::find", where(foc))
 
 
-def rule_through(chk):
+def rule_through(chk, binop_evaluated=False):
+    """find => apply pairing by MIR slices. The operand-origin part for parse_expr_binop is the fallback of the evaluated
+    table C03.elab/binop/* (which re-types every accepted node) and is skipped when that table was readable."""
     f = chk.facts
     find = f.fn("find", TY, self_ty="ImplicitConversion")
     app = f.fn("apply", TY, self_ty="ImplicitConversion")
@@ -1027,7 +1039,7 @@ def rule_through(chk):
     chk.note("conversion sites: %s" % dict(sorted(per_fn.items())))
     # operands of the nodes built by parse_expr_binop originate from apply
     pb = f.fn("parse_expr_binop", TY)
-    if pb:
+    if pb and not binop_evaluated:
         tr = TF.Tracer(f, max_depth=1, no_inline=("::apply",))
         for a in F.exprs(pb["thir"], "Adt"):
             if short(a["adt"]) == "Expression" and a.get("variant") == "IntrinsicOp":
